@@ -22,6 +22,43 @@ def _has_slack(net):
                 (len(net.gen) and (net.gen.slack & net.gen.in_service).any()))
 
 
+EXPL_CVA = "explained=cva_false_ignores_assist_ext_grid_angles"
+EXPL_REI = "explained=rei_eq_switch_between_total_buses_drops_shunts"
+
+
+def _explain(case, ref, eq, I, B, kw, get_equivalent, merge, select_subnet, pp):
+    """predicates of the two recorded defects (evaluated only when a voltage mismatch was observed)"""
+    toks = []
+    # REI: two REI "total" buses joined by an eq_switch lose their equivalent shunts (TODO in
+    # rei_generation._replace_ext_area_by_impedances_and_shunts)
+    if case["eq_type"] == "rei" and len(eq.switch):
+        tot = set(eq.bus.index[eq.bus.name.astype(str).str.contains("-total")])
+        sw = eq.switch[(eq.switch.name.astype(str) == "eq_switch") & (eq.switch.et == "b")]
+        if len(sw) and all(b in tot and e in tot for b, e in zip(sw.bus.values, sw.element.values)):
+            toks.append(EXPL_REI)
+    # calculate_voltage_angles=False: the internal power flows ignore va_degree of the assist ext_grids that
+    # get_equivalent puts on the boundary buses (build_gen: slack angle only used when calculate_voltage_angles)
+    if not case["cva"] and not toks:
+        slack = set(ref.ext_grid.bus[ref.ext_grid.in_service]) | set(ref.gen.bus[ref.gen.in_service & ref.gen.slack])
+        assist = [b for b in B if b not in slack and abs(float(ref.res_bus.at[b, "va_degree"])) > 1e-9]
+        if assist:
+            try:
+                net2 = copy.deepcopy(ref)
+                eq2 = get_equivalent(net2, case["eq_type"], list(B), list(I), return_internal=case["return_internal"],
+                                     calculate_voltage_angles=True, **kw)
+                if I and not case["return_internal"]:
+                    bb = [int(b) for b in eq2.bus_lookups["boundary_buses_inclusive_bswitch"]]
+                    eq2 = merge(eq2, select_subnet(ref, sorted(set(I) | set(B) | set(bb)), include_results=True))
+                pp.runpp(eq2, calculate_voltage_angles=False)
+                _, _, probs2 = je.compare_voltages(ref, eq2, [b for b in list(I) + list(B)
+                                                              if np.isfinite(ref.res_bus.at[b, "vm_pu"])], TOL_VM, TOL_VA)
+                if not probs2:
+                    toks.append(EXPL_CVA)
+            except Exception:
+                pass
+    return toks
+
+
 def run_case(case):
     import pandapower as pp
     from pandapower.grid_equivalents import get_equivalent, merge_internal_net_and_equivalent_external_net
@@ -69,7 +106,9 @@ def run_case(case):
     try:
         if I and not case["return_internal"]:
             how = "merged"
-            ib = select_subnet(ref, list(I) + list(B), include_results=True)
+            # get_equivalent may have moved an external slack bus into the boundary: use its own boundary list
+            bb = [int(b) for b in eq.bus_lookups["boundary_buses_inclusive_bswitch"]]
+            ib = select_subnet(ref, sorted(set(I) | set(B) | set(bb)), include_results=True)
             eq = merge_internal_net_and_equivalent_external_net(eq, ib)
     except Exception as e:
         out["outcome"] = "merge_raise_" + type(e).__name__
@@ -90,6 +129,15 @@ def run_case(case):
         return out
     judged = [b for b in list(I) + list(B) if np.isfinite(ref.res_bus.at[b, "vm_pu"])]
     wvm, wva, probs = je.compare_voltages(ref, eq, judged, TOL_VM, TOL_VA)
+    expl = []
+    if any("problem" not in p for p in probs):
+        expl = _explain(case, ref, eq, I, B, kw, get_equivalent, merge_internal_net_and_equivalent_external_net,
+                        select_subnet, pp)
+    toks = toks + expl
+    if len(ref.xward):
+        E = set(case["split"]["E"])
+        where = sorted({"external" if b in E else "boundary" if b in set(B) else "internal" for b in ref.xward.bus.values})
+        toks += ["xward_at=" + w for w in where]
     for p in probs:
         clause = "bus_missing" if "problem" in p else "voltage"
         p = dict(p)
@@ -105,33 +153,43 @@ def run_case(case):
     return out
 
 
+QUICK_DEVS = {"G6": [["sn", 100.], ["gen_slack", 0], ["ext_xward", 2], ["bb", 3]], "M4": [["ext_ward", 1]]}
+ALL_OPTS = [(True, True), (False, True), (True, False), (False, False)]
+
+
 def gen_cases(tier):
+    """quick: M4 everything; G6 full option product on splits with <=2 boundary buses, (T,T) on the other splits with
+    an internal area, empty internal area only with <=2 boundary buses and calculate_voltage_angles=True; deviated nets:
+    QUICK_DEVS x splits with internal area and <=2 boundary buses x (T,T).  thorough: every split x every option on the
+    base nets, every menu deviation x every split x {(T,T),(F,T),(T,F)}, plus ward_admittance."""
     cases = []
+    quick = tier == "quick"
     plan = [("M4", []), ("G6", [])]
-    dev_opts = [(True, True)] if tier == "quick" else [(True, True), (False, True), (True, False)]
     for b in ("G6", "M4"):
-        menu = je.dev_menu(b)
-        if tier == "quick" and b == "M4":
-            menu = menu[:3]
-        plan += [(b, [d]) for d in menu]
+        plan += [(b, [d]) for d in (QUICK_DEVS[b] if quick else je.dev_menu(b))]
     for base, devs in plan:
-        net = je.build({"base": base, "devs": devs})
-        sp = je.splits(net)
-        full = not devs
+        sp = je.splits(je.build({"base": base, "devs": devs}))
         for s in sp:
-            if devs and tier == "quick" and not s["I"]:
-                continue
-            for eq_type in ("ward", "xward", "rei"):
-                if full:
-                    opts = [(ri, cva) for ri in (True, False) for cva in (True, False)]
-                else:
-                    opts = dev_opts
+            small = len(s["B"]) <= 2 or base == "M4"
+            if devs:
+                if quick and (not s["I"] or not small):
+                    continue
+                opts = [(True, True)] if quick else ALL_OPTS[:3]
+            elif quick and not small:
                 if not s["I"]:
-                    opts = sorted({(False, cva) for _, cva in opts}, reverse=True)   # return_internal is forced off
+                    continue
+                opts = [(True, True)]
+            elif quick and not s["I"] and base != "M4":
+                opts = [(False, True)]
+            else:
+                opts = ALL_OPTS
+            if not s["I"]:
+                opts = sorted({(False, cva) for _, cva in opts}, reverse=True)   # return_internal is forced off
+            for eq_type in ("ward", "xward", "rei"):
                 for ri, cva in opts:
                     cases.append({"base": base, "devs": devs, "split": s, "eq_type": eq_type,
                                   "return_internal": ri, "cva": cva})
-                if tier == "thorough" and full and eq_type != "rei":
+                if not quick and not devs and eq_type != "rei":
                     cases.append({"base": base, "devs": devs, "split": s, "eq_type": eq_type, "return_internal": True,
                                   "cva": True, "kw": {"ward_type": "ward_admittance"}})
     cases.sort(key=lambda c: len(c["devs"]))
@@ -145,18 +203,20 @@ def explore(tier, seed):
     rep.rule = ("E1: bases M4, G6 (mc/j_equiv.py) with <=1 deviation from dev_menu; per net EVERY partition of the buses into "
                 "(internal, boundary, external) with boundary and external non-empty, no branch between internal and external "
                 "and a connected (or empty) internal area; x eq_type {ward, xward, rei} x return_internal {T,F} x "
-                "calculate_voltage_angles {T,F} on the undeviated nets, (T,T) on deviated nets (thorough: also (F,T), (T,F), "
-                "empty internal area and ward_admittance); a case is distinct+non-trivial when get_equivalent returned a net "
-                "whose power flow converged and was compared, keyed by (net, split, eq_type, options)")
+                "calculate_voltage_angles {T,F}; quick: full option product on M4 and on G6 splits with <=2 boundary buses, (T,T) "
+                "on the other G6 splits, deviations %s on splits with internal area and <=2 boundary buses; thorough: every "
+                "split x every option, every menu deviation x every split x {(T,T),(F,T),(T,F)}, ward_admittance; a case is distinct+non-trivial when get_equivalent returned a net "
+                "whose power flow converged and was compared, keyed by (net, split, eq_type, options)" % (QUICK_DEVS,))
     rep.extra["get_equivalent_calls"] = len(cases)
     rep.extra["splits"] = {b: len(je.splits(je.base(b))) for b in ("M4", "G6")}
     res = core.run_cases(rep, run_case, cases)
     msgs = {}
     for c, r in zip(cases, res):
         if r.get("exc_msg"):
-            msgs.setdefault("%s: %s" % (r["outcome"], r["exc_msg"][:120]), 0)
-            msgs["%s: %s" % (r["outcome"], r["exc_msg"][:120])] += 1
-    rep.extra["exception_messages"] = dict(sorted(msgs.items(), key=lambda kv: -kv[1])[:12])
+            key = "%s+%s|%s|%s: %s" % (c["base"], c["devs"][0][0] if c["devs"] else "-", c["eq_type"], r["outcome"],
+                                       r["exc_msg"][:100])
+            msgs[key] = msgs.get(key, 0) + 1
+    rep.extra["exception_messages"] = dict(sorted(msgs.items(), key=lambda kv: -kv[1])[:30])
     rep.assumptions = ["vm_pu to 1e-6, va_degree to 1e-4, buses of the equivalent identified by bus name",
                        "original net solved with the same calculate_voltage_angles as passed to get_equivalent",
                        "return_internal=False with a non-empty internal area: judged after "
